@@ -17,7 +17,7 @@ RULE = (
 )
 ASSUMPTIONS = [
     "oracle = vlib/ref6.py (own Draft-6 reading), self-checked per case against jsonschema.Draft6Validator",
-    "numbers restricted to |int|<2^31 and dyadic floats (exact IEEE arithmetic); extremes belong to C10",
+    "numbers: |int|<2^31 and dyadic floats (exact IEEE arithmetic), plus integers up to 2^64 when no float multipleOf is involved (integer arithmetic is exact); other extremes belong to C10",
     "regex patterns from a pool on which ECMA-262 and Python re agree",
     "property-name pool has pairwise distinct Python images (collisions belong to C12)",
     "required-with-default waiver is three-valued ('either'): both accept and reject are tolerated",
@@ -42,10 +42,28 @@ def cfg(ctx=None):
     )
 
 
+BIG_INTS = [2 ** 53 + 1, 9007199254740993, 7 * 10 ** 16 + 1, 2 ** 64, 3 * 2 ** 60, -(2 ** 53) - 1, 10 ** 18 + 3,
+            6 * 10 ** 17, 2 ** 53, 35 * 2 ** 50 + 7]
+
+
+def _float_multiple(schema):
+    found = []
+    sg.walk(schema, lambda s, p: found.append(1) if isinstance(s, dict) and isinstance(s.get("multipleOf"), float) else None)
+    return bool(found)
+
+
 @st.composite
 def cases(draw, c):
     schema = draw(sg.schemas(c))
     values = draw(values_for(schema))
+    if isinstance(schema, dict) and not _float_multiple(schema) and draw(st.integers(0, 3)) == 0:
+        # integers beyond 2**53: exact for every implementation that does integer arithmetic on integer
+        # operands (ref6 uses Fractions); never combined with a float multipleOf
+        big = draw(st.lists(st.sampled_from(BIG_INTS), min_size=1, max_size=2))
+        if isinstance(schema.get("multipleOf"), int) and not isinstance(schema.get("multipleOf"), bool):
+            m = schema["multipleOf"]
+            big += [m * draw(st.sampled_from(BIG_INTS)), m * draw(st.sampled_from(BIG_INTS)) + 1]
+        values = values + big + [[b] for b in big[:1]] + [{"a": big[0]}]
     return {"schema": schema, "values": values}
 
 
